@@ -18,7 +18,7 @@ EXPLANATION = (
     "existing pair together (new, partition, into_owned, any); (route) FromStr = new + into_owned, TryFrom<&str> = new, "
     "Display writes the stored expression of the tree.  Equality of behaviour as such is not computed; owned captures are "
     "decided in C04.whole.")
-RULES = "C19.owned (TABLE on a catalogue: into_owned is the identity on trees), C19.kinds (TABLE), C19.order (EFFECT), C19.pair (PROV), C19.route (WHO)"
+RULES = "C19.owned (TABLE on a catalogue: into_owned is the identity on trees), C19.kinds (TABLE), C19.order (EFFECT), C19.pair (PROV), C19.route (WHO), C08.bytes (EFFECT: the expression Display writes after a partition)"
 
 
 def run(ctx):
